@@ -83,7 +83,12 @@ pub fn run_case(tier: &str, seed: u64, idx: u64) -> CaseOut {
                     apply_to_map(&mut m, &a.ops);
                     m
                 });
-                let cfg = exec.cfg_at(k as u64);
+                let mut cfg = exec.cfg_at(k as u64);
+                // one recovery in four runs with the other log-reuse setting than the instance that crashed
+                if rng.chance(0.25) {
+                    cfg.reuse = !cfg.reuse;
+                    out.add("recoveries_with_the_other_reuse_setting", 1);
+                }
                 for cut in cuts {
                     let image = replayer.image_torn(entry, cut);
                     let ctx = json!({"execution": exec.description, "torn_call_index": k, "of": n, "call": entry.op.describe(),
